@@ -3,6 +3,7 @@
 (*  "expr":   evaluate(expression, exchange) -> value / unresolvable / rejected at parse time / error at evaluation   *)
 (*  "status": the statuses for which the real state machine routes a response into the bundle of a link key          *)
 (*  "tree":   evaluate(JSON tree, exchange, evaluate_nested) for requestBody-like values                                *)
+(*  "same":   the source exchange before and after a derivation (must be untouched)                                  *)
 (*  "live":   one link-derived request as the server received it (or, strict, one Transition returned by link.extract)   *)
 EXTENDS Links, IOUtils
 Obs == JsonDeserialize(IOEnv.OBS_FILE)
@@ -37,6 +38,7 @@ Report == LET r == Obs[i] IN
             IF r.kind = "expr" THEN (IF AgreeExpr(Eval(r.e, r.x), r.obs) THEN TRUE ELSE PrintT(<<"DISAGREE", i, "expr", 0>>))
             ELSE IF r.kind = "tree" THEN (IF AgreeExpr(TreeResult(r.tree, r.x), r.obs) THEN TRUE ELSE PrintT(<<"DISAGREE", i, "tree", 0>>))
             ELSE IF r.kind = "link" THEN (IF LinkVerdict(r.link) \in {"U", r.obs} THEN TRUE ELSE PrintT(<<"DISAGREE", i, "link", 0>>))
+            ELSE IF r.kind = "same" THEN (IF r.a = r.b THEN TRUE ELSE PrintT(<<"DISAGREE", i, "source-changed", 0>>))
             ELSE IF r.kind = "status" THEN (IF StatusSound(r) THEN TRUE ELSE PrintT(<<"DISAGREE", i, "status", 0>>))
             ELSE /\ IF StatusOK(r) THEN TRUE ELSE PrintT(<<"DISAGREE", i, "live-status", 0>>)
                  /\ IF BodyOK(r.body, r.x) THEN TRUE ELSE PrintT(<<"DISAGREE", i, "live-body", 0>>)
